@@ -1,5 +1,6 @@
 import RainModel.Lemmas.LoopWeak
 import RainModel.Lemmas.LoopStart
+import RainModel.Lemmas.LoopVerify2
 /-!
 C04 — lifecycle safety, loop level (M-LOOP).  Two inductive invariants of the event loop, proved for every
 event with arbitrary parameters, every state satisfying them, and every admissible choice of the picker:
@@ -126,6 +127,46 @@ theorem verify_ends_stopped_or_hangs (s : St) (p : Parked) (kn : Nat → Bool) (
         (step s p kn .verify).1.st.stopHang = true)) :=
   Rain.Loop.verify_ends_stopped_or_hangs s p kn l he hi hp hf hex
 
+/-- **verify_from_running_ends_stopped.** The verify command on a torrent that is *not* stopped — any other
+status: downloading, seeding, allocating or verifying behind a gate, fetching nothing but already stopping —
+with the metadata known, at least one of its files on disk, the storage not failing and every tracker
+answering: the command stops the torrent, the completed stop restarts it without its bitfield
+(`handleStopped` sees `doVerify`), the files are re-opened and verified, and the op ends `Stopped` with the
+verify flag cleared.  (`verify_running_magnet_not_stopped` below: false without the metadata.) -/
+theorem verify_from_running_ends_stopped (s : St) (p : Parked) (kn : Nat → Bool) (l : Life s) (he : s.errC = true)
+    (hi : s.info = true) (hp : s.panicked = none) (hf : s.failOpen = false) (hex : SomeFileExists s)
+    (hh : s.stopHang = false) :
+    (step s p kn .verify).1.st.status = .stopped ∧ (step s p kn .verify).1.st.doVerify = false :=
+  Rain.Loop.verify_from_running_ends_stopped s p kn l he hi hp hf hex hh
+
+/-- The same without the assumption about the trackers: `Stopped` with the flag cleared — or a tracker does
+not answer the `stopped` event and the torrent is `Stopping` with the verify still pending. -/
+theorem verify_from_running_ends_stopped_or_hangs (s : St) (p : Parked) (kn : Nat → Bool) (l : Life s)
+    (he : s.errC = true) (hi : s.info = true) (hp : s.panicked = none) (hf : s.failOpen = false)
+    (hex : SomeFileExists s) :
+    ((step s p kn .verify).1.st.status = .stopped ∧ (step s p kn .verify).1.st.doVerify = false) ∨
+    (s.stopHang = true ∧ (step s p kn .verify).1.st.status = .stopping ∧
+      (step s p kn .verify).1.st.stopHang = true ∧ (step s p kn .verify).1.st.doVerify = true) :=
+  Rain.Loop.verify_from_running_ends_stopped_or_hangs s p kn l he hi hp hf hex
+
+/-- … and the pending verify of the second case runs to the end when the stop timeout passes
+(`Op.waitstop`), the storage gates being released: `Stopped`, flag cleared. -/
+theorem pending_verify_waitstop (s : St) (p : Parked) (kn : Nat → Bool) (l : Life s)
+    (hs : s.stopAnn = true) (hdv : s.doVerify = true) (hi : s.info = true) (hp : s.panicked = none)
+    (hf : s.failOpen = false) (hex : SomeFileExists s) (hgo : s.gateOpen = false) (hgr : s.gateRead = false) :
+    (step s p kn .waitstop).1.st.status = .stopped ∧ (step s p kn .waitstop).1.st.doVerify = false :=
+  Rain.Loop.pending_verify_waitstop s p kn l hs hdv hi hp hf hex hgo hgr
+
+/-- Counterexample to `verify_from_running_ends_stopped` without `info` (a magnet torrent that is still
+fetching its metadata): the verify stops it, the pending verify restarts it, and it is fetching metadata
+again with the flag still set. -/
+theorem verify_running_magnet_not_stopped :
+    let c : Cfg := { pl := 16384, plens := [16384], blocks := [[(0, 16384)]], flens := [16384], fpads := [false], fnames := ["t"] }
+    let s : St := { cfg := c, info := false, infoAtAdd := false, errC := true, acceptor := true,
+                    fileExists := [true], known := [true] }
+    (step s none (fun _ => false) .verify).1.st.status = .dlmeta ∧
+    (step s none (fun _ => false) .verify).1.st.doVerify = true := by decide
+
 /-- **verify_without_files_starts_download** (counterexample to `verify_ends_stopped` without the
 hypothesis that some file exists; the property text names it): verify on a stopped torrent with no data
 starts downloading, and the verify flag stays set — the next `stop` is turned into a re-verification. -/
@@ -185,6 +226,22 @@ private def evs1 : List Ev := [
 example : (drun (s1, none) evs1).1.status = .seeding ∧ (drun (s1, none) evs1).1.bf = some [true] := by decide
 example : (drun (s1, none) (evs1 ++ [⟨.stop, kn [1], [], []⟩])).1.status = .stopped ∧
     (drun (s1, none) (evs1 ++ [⟨.stop, kn [1], [], []⟩])).1.peers = [] := by decide
+
+/-! Non-vacuity of `verify_from_running_ends_stopped`: verify on the seeding torrent — stopped, re-verified
+(the bitfield is the verifier's), flag cleared; with a hanging tracker: `Stopping`, verify pending, and the
+stop timeout completes it. -/
+example : (drun (s1, none) (evs1 ++ [⟨.verify, kn [1], [], []⟩])).1.status = .stopped ∧
+    (drun (s1, none) (evs1 ++ [⟨.verify, kn [1], [], []⟩])).1.doVerify = false ∧
+    (drun (s1, none) (evs1 ++ [⟨.verify, kn [1], [], []⟩])).1.bf = some [true] ∧
+    (drun (s1, none) evs1).1.errC = true ∧ SomeFileExists (drun (s1, none) evs1).1 := by
+  refine ⟨by decide, by decide, by decide, by decide, ?_⟩
+  unfold SomeFileExists; decide
+example : (drun ({ s1 with stopHang := true }, none) (evs1 ++ [⟨.verify, kn [1], [], []⟩])).1.status = .stopping ∧
+    (drun ({ s1 with stopHang := true }, none) (evs1 ++ [⟨.verify, kn [1], [], []⟩])).1.doVerify = true := by decide
+example : (drun ({ s1 with stopHang := true }, none)
+      (evs1 ++ [⟨.verify, kn [1], [], []⟩, ⟨.waitstop, kn [1], [], []⟩])).1.status = .stopped ∧
+    (drun ({ s1 with stopHang := true }, none)
+      (evs1 ++ [⟨.verify, kn [1], [], []⟩, ⟨.waitstop, kn [1], [], []⟩])).1.doVerify = false := by decide
 
 /-! Non-vacuity of the hanging-tracker statements (`stopHang` is set by the driver from the tracker stubs'
 state; here it is set in the initial state): stop leaves the torrent `Stopping`; the stop timeout ends it;
